@@ -40,8 +40,9 @@ func cmdVerify(args []string) {
 	verbose := fs.Bool("v", false, "verbose")
 	model := fs.String("model", "", "print a model for the failing obligation whose name contains this string")
 	pkgs := fs.String("pkgs", "./...", "package patterns")
+	specs := fs.String("specs", "/verif/specs", "directory of trusted library specs")
 	fs.Parse(args)
-	P, err := loadProg(*repo, []string{*pkgs}, []string{"/verif/specs"})
+	P, err := loadProg(*repo, []string{*pkgs}, []string{*specs})
 	if err != nil {
 		fmt.Fprintln(os.Stderr, err)
 		os.Exit(2)
